@@ -36,6 +36,23 @@ IDENT_POOL = [
 ]
 IDENT_POOL = [i for i in dict.fromkeys(IDENT_POOL) if i not in KEYWORDS and i not in RESERVED]
 
+
+def _known_listed(kid):
+    import json
+    import os
+    try:
+        p = os.path.join(os.path.dirname(os.path.dirname(os.path.abspath(__file__))), "known_findings.json")
+        return any(k.get("id") == kid for k in json.load(open(p)).get("findings", []))
+    except Exception:
+        return False
+
+
+# Known finding KF2: a variant named like an enabled MIN / MAX constant shadows it inside the generated code.
+# While the finding is listed, such identifiers are excluded by construction; if it is ever removed from the
+# file the pool contains them again and a violation is reported.
+if not _known_listed("KF2"):
+    IDENT_POOL += ["MAX", "MIN"]
+
 NASTY_NAMES = ["", " ", "  lead", "trail ", "a b", "\"", "\\", "\\n", "\n", "\t", "{}", "{0}", "{:?}", "{{", "}",
                "%s", "'", "\0", "a\0b", "é", "é", "名前", "🦀", "A*", "a-b", "a::b", "#", "r#\"x\"#",
                "​", "﻿", "ß", "SS", "İ", "i̇", "x" * 300, "\r\n", "\r", "null", "None", "Self",
